@@ -142,6 +142,10 @@ def grid_matrix(tier):
                             extra=["--mode", "grid"], seed_off=5))
             runs.append(Run(p, feats=["immortal_as_nonmoving"], name="grid-nmimm", heap=heap,
                             programs=3, extra=["--mode", "grid"], seed_off=6))
+    # stress options: the allocators' precise-stress slow paths serve every request of the grid
+    for p in (["SemiSpace", "GenCopy", "Immix"] if tier == "quick" else [q for q in PLANS if q != "NoGC"]):
+        runs.append(Run(p, name="grid-stress", heap=96, programs=1, ops=80, seed_off=7,
+                        opts="stress_factor=2097152", extra=["--mode", "grid"]))
     # recorded defect: MarkSweep Default request whose padded size exceeds the largest size class
     runs.append(Run("MarkSweep", name="grid-padprobe", heap=96, programs=0, sems="0",
                     extra=["--mode", "grid", "--padprobe"], known_key="MarkSweep:padded-size-exceeds-largest-class"))
